@@ -115,7 +115,8 @@ def _build(flavour, targets, verbose, hooks):
             tobjs[t] = [tu([os.path.join(REPO, "source", t, "main.cc")], tag=t)]
         else:
             src = os.path.join(VERIF, "harness", t + ".cc")
-            extra = ["-I" + os.path.join(VERIF, "harness"), "-DVERIF_REPO=\"%s\"" % REPO]
+            extra = ["-I" + os.path.join(VERIF, "harness"), "-DVERIF_REPO=\"%s\"" % REPO,
+                     "-DGWB_GRID_MAIN=\"%s\"" % os.path.join(REPO, "source/gwb-grid/main.cc")]
             deps = sorted(glob.glob(os.path.join(VERIF, "harness", "*.h")) + glob.glob(os.path.join(VERIF, "harness", "*.inc")))
             if t == "pooltrace":
                 deps.append(os.path.join(REPO, "source/gwb-grid/main.cc"))
